@@ -54,7 +54,13 @@ where
         expected_size: Option<usize>,
         builder: &mut <A as Array>::Builder,
     ) -> usize {
-        let inner_result = self.inner_iter.next_batch_non_null(expected_size, builder);
+        // Decode into a scratch builder: `replace_bitmap` replaces the *whole* validity bitmap, so
+        // decoding straight into `builder` corrupts it whenever it already holds rows of a previous
+        // block (a batch that spans a block boundary).
+        let mut scratch = <A as Array>::Builder::new();
+        let inner_result = self
+            .inner_iter
+            .next_batch_non_null(expected_size, &mut scratch);
 
         let bitmap_slice = &BitSlice::<u8, Lsb0>::from_slice(&self.bitmap_block)
             [self.cur_row..self.cur_row + inner_result];
@@ -62,7 +68,8 @@ where
         bitmap_slice
             .iter()
             .for_each(|x| bitmap_for_builder.push(*x));
-        builder.replace_bitmap(bitmap_for_builder);
+        scratch.replace_bitmap(bitmap_for_builder);
+        builder.append(&scratch.finish());
         self.cur_row += inner_result;
         inner_result
     }
